@@ -13,6 +13,8 @@ pub enum WClass {
     Mixed,
     Zeros,
     Spread,
+    /// all weights equal to one constant other than 1
+    Constant,
 }
 
 impl WClass {
@@ -25,6 +27,7 @@ impl WClass {
             WClass::Mixed,
             WClass::Zeros,
             WClass::Spread,
+            WClass::Constant,
         ])
     }
     pub fn name(&self) -> &'static str {
@@ -35,6 +38,7 @@ impl WClass {
             WClass::Mixed => "mixed-sign",
             WClass::Zeros => "with-zeros",
             WClass::Spread => "spread",
+            WClass::Constant => "constant",
         }
     }
 }
@@ -55,6 +59,10 @@ pub fn gen_weights(rng: &mut Rng, class: WClass, n: usize, keep: usize) -> Optio
                 w[i] = 0.0;
             }
             Some(w)
+        }
+        WClass::Constant => {
+            let c = *rng.pick(&[0.5, 2.0, -1.0, 3.7, 0.01, -25.0]);
+            Some(vec![c; n])
         }
         WClass::Spread => {
             let decades = rng.range(1.0, 3.0);
